@@ -54,6 +54,9 @@ class Ref:
         self.frags = {d.name.value: d for d in doc.definitions if isinstance(d, A.FragmentDefinitionNode)}
         self.propagate = True
         self.root_value = root_value
+        self.invalid_errors = []  # coercion failures that are NOT the exemption: validation should have rejected them
+        self.var_has_default = {}
+        self.merge_conflicts = []  # groups executed although their fields differ in name or arguments
 
     # -- operation selection
     def get_operation(self):
@@ -83,8 +86,12 @@ class Ref:
             data = self.exec_selection_set([op.selection_set], root, root_value, [])
         except FieldError:
             data = None
+        except Invalid as e:      # a directive argument of the root selection set failed to coerce: no position to blame
+            self.record_error(None, e)
+            data = None
         return {'data': data, 'error_paths': self.errors, 'calls': self.calls,
-                'exempt_error_paths': self.exempt_errors}
+                'exempt_error_paths': self.exempt_errors, 'invalid_error_paths': self.invalid_errors,
+                'fault_error_paths': self.fault_errors, 'merge_conflicts': self.merge_conflicts}
 
     # -- variables
     def coerce_variables(self, op):
@@ -92,6 +99,7 @@ class Ref:
         for vd in op.variable_definitions or ():
             name = vd.variable.name.value
             t = self.type_from_ast(vd.type)
+            self.var_has_default[name] = vd.default_value is not None
             has = name in self.raw_vars
             if not has and vd.default_value is not None:
                 try:
@@ -154,14 +162,23 @@ class Ref:
 
     def scalar_in(self, v, t):
         n = t.name
+        # runtime numbers follow JSON semantics: 3 and 3.0 are the same number
         if n == 'Int':
-            if isinstance(v, bool) or not isinstance(v, int) or not -2**31 <= v < 2**31:
+            if isinstance(v, bool) or not isinstance(v, (int, float)) or v != v or v in (float('inf'), float('-inf')):
                 raise Invalid
-            return v
+            if v != int(v) or not -2**31 <= v < 2**31:
+                raise Invalid
+            return int(v)
         if n == 'Float':
             if isinstance(v, bool) or not isinstance(v, (int, float)):
                 raise Invalid
-            return float(v)
+            try:
+                f = float(v)
+            except OverflowError:
+                raise Invalid
+            if f != f or f in (float('inf'), float('-inf')):
+                raise Invalid
+            return f
         if n == 'String':
             if not isinstance(v, str):
                 raise Invalid
@@ -174,7 +191,12 @@ class Ref:
             if isinstance(v, str):
                 return v
             if isinstance(v, int) and not isinstance(v, bool):
-                return str(v)
+                try:
+                    return str(v)
+                except ValueError:      # beyond the interpreter's int -> str limit: not representable
+                    raise Invalid
+            if isinstance(v, float) and v == v and v not in (float('inf'), float('-inf')) and v == int(v):
+                return str(int(v))
             raise Invalid
         if is_enum_type(t):
             if not isinstance(v, str) or v not in t.values:
@@ -186,16 +208,18 @@ class Ref:
         lit = d.default.literal
         return self.coerce_literal(lit, d.type, {}) if lit is not None else self._cv(d.default.value, d.type)
 
-    def coerce_literal(self, node, t, variables):
+    def coerce_literal(self, node, t, variables, pos_default=False):
         """Spec input coercion of a literal that may contain variables.
-        Returns MISSING only for a top-level value-less variable."""
+        Returns MISSING only for a top-level value-less variable.
+        pos_default: the position (argument / input field) has a default value of its own."""
         if isinstance(node, A.VariableNode):
             name = node.name.value
             if name not in variables:
                 return MISSING
             v = variables[name]
             if v is None and is_non_null_type(t):
-                raise ExemptNull
+                # the one case the specification defers to run time: the usage was allowed because a default exists
+                raise ExemptNull if (pos_default or self.var_has_default.get(name)) else Invalid
             return v
         if is_non_null_type(t):
             if isinstance(node, A.NullValueNode):
@@ -210,7 +234,7 @@ class Ref:
                     c = self.coerce_literal(item, t.of_type, variables)
                     if c is MISSING:
                         if is_non_null_type(t.of_type):
-                            raise ExemptNull
+                            raise Invalid          # list items have no defaults: never the exemption
                         c = None
                     out.append(c)
                 return out
@@ -229,12 +253,12 @@ class Ref:
             for fname, fdef in t.fields.items():
                 c = MISSING
                 if fname in given:
-                    c = self.coerce_literal(given[fname], fdef.type, variables)
+                    c = self.coerce_literal(given[fname], fdef.type, variables, fdef.default is not None)
                 if c is MISSING:
                     if fdef.default is not None:
                         res[fname] = self.default_of(fdef)
                     elif is_non_null_type(fdef.type):
-                        raise ExemptNull if fname in given else Invalid
+                        raise Invalid
                 else:
                     res[fname] = c
             self.check_one_of(t, res)
@@ -268,6 +292,22 @@ class Ref:
                 raise Invalid
             return t.values[node.value].value
         return untyped(node, variables)
+
+
+def _norm(v):
+    if isinstance(v, A.ObjectValueNode):
+        return ('obj', tuple(sorted((f.name.value, _norm(f.value)) for f in v.fields)))
+    if isinstance(v, A.ListValueNode):
+        return ('list', tuple(_norm(x) for x in v.values))
+    if isinstance(v, A.VariableNode):
+        return ('var', v.name.value)
+    if isinstance(v, A.NullValueNode):
+        return ('null',)
+    return (v.kind, v.value)
+
+
+def args_sig(field):
+    return tuple(sorted((a.name.value, _norm(a.value)) for a in field.arguments or ()))
 
 
 def untyped(node, variables):
@@ -348,6 +388,11 @@ def _install_execution(cls):
         result = {}
         for key, fields in self.collect(obj_type, selection_sets).items():
             fname = fields[0].name.value
+            if len(fields) > 1:
+                # on one and the same object type, fields sharing a response key must be the same field with identical arguments
+                sigs = {(f.name.value, args_sig(f)) for f in fields}
+                if len(sigs) > 1:
+                    self.merge_conflicts.append((list(path) + [key], sorted(n for n, _ in sigs)))
             if fname == '__typename':
                 result[key] = obj_type.name
                 continue
@@ -358,11 +403,14 @@ def _install_execution(cls):
         return result
 
     def record_error(self, path, exc):
-        self.errors.append(list(path))
+        path = None if path is None else list(path)
+        self.errors.append(path)
         if isinstance(exc, ExemptNull):
-            self.exempt_errors.append(list(path))
+            self.exempt_errors.append(path)
+        elif isinstance(exc, Invalid):
+            self.invalid_errors.append(path)
         else:
-            self.fault_errors.append(list(path))
+            self.fault_errors.append(path)
 
     def exec_field(self, obj_type, obj_value, fdef, fields, path):
         try:
@@ -387,12 +435,12 @@ def _install_execution(cls):
             node = given.get(name)
             c = MISSING
             if node is not None:
-                c = self.coerce_literal(node, adef.type, self.vars)
+                c = self.coerce_literal(node, adef.type, self.vars, adef.default is not None)
             if c is MISSING:
                 if adef.default is not None:
                     out[name] = self.default_of(adef)
                 elif is_non_null_type(adef.type):
-                    raise ExemptNull if node is not None else Invalid
+                    raise Invalid
             else:
                 out[name] = c
         return out
